@@ -400,5 +400,5 @@ Lemma dephasing_qutrit_regression :
              dissip2_sum zi_ring 3 [L] rho = zeros zi_ring 3).
 Proof.
   cbv zeta. split; [vm_compute; reflexivity|]. split; [vm_compute; discriminate|].
-  eexists; split; vm_compute; reflexivity.
+  eexists; split; [vm_compute; reflexivity | vm_compute; reflexivity].
 Qed.
